@@ -151,3 +151,10 @@ Proof.
   unfold Dtype_disjoint. rewrite forallb_forall. intros H d Hd Hb.
   specialize (H _ Hd). apply Dtype_mem_In in Hb. rewrite Hb in H. discriminate.
 Qed.
+
+Lemma strings_canonical_sound t : strings_canonical t = true ->
+  forall d s, Dtype_get d t = Some s -> s = Dtype_torch_prefix ++ d.
+Proof.
+  unfold strings_canonical. rewrite forallb_forall. intros H d s Hg.
+  apply Dtype_get_Some_In in Hg. specialize (H _ Hg). cbn [fst snd] in H. apply Dtype_str_eqb_eq. exact H.
+Qed.
